@@ -114,8 +114,9 @@ class LayerNormBiasFusion(pattern.RewriteRuleClassBase):
     def rewrite(self, op, x, scale, bias, normalized):
         layernorm_node = normalized.producer()
         attributes = layernorm_node.attributes
-        num_outputs = len(layernorm_node.outputs)
-        return op.LayerNormalization(x, scale, bias, _outputs=num_outputs, **attributes)
+        # The pattern has a single output (the other outputs of the matched node cannot be in use,
+        # otherwise the node could not be removed and the match would have failed).
+        return op.LayerNormalization(x, scale, bias, **attributes)
 
 
 # Create rules for both with and without bias
